@@ -40,7 +40,10 @@ RULE = (
     "(while the loop is busy) for peer->library, 'hold' for library->peer; deviation bound per tier; plus the uniform "
     "fragmentations {1,2,3,5,7,64,1000} bytes per delivery (both directions) as whole-run configurations; blocking "
     "SSLStreamTransport over a real socketpair with a reduced script set. distinct_nontrivial = distinct (configuration class, "
-    "sequence of leaf-transport calls with sizes) among executions with at least one non-default delivery"
+    "sequence of leaf-transport calls with sizes) among executions with at least one non-default delivery. Full duplex under "
+    "back-pressure (c08_duplex): the leaf's send_all() of application data blocks until the library's reader task has drained the "
+    "peer's whole write (a peer that reads only after its own large write went through); one or two writer tasks and the reader "
+    "started in 5 orders with 0/1/3 loop turns between them, recv/recv_into, sizes {17,40000,100000} per side: every task must finish"
 )
 ASSUMPTIONS = [
     "the peer is CPython's ssl.SSLObject (OpenSSL) driven by the harness; OpenSSL and asyncio are executed, not modelled",
@@ -55,10 +58,10 @@ BOUNDS = {
     "quick": "deviation bound 2 on 8 script pairs x 8 configurations (64 explorations); bound 1 on the 6x6 mid script pairs x 4 version/role "
              "configurations, on 64 configurations over the real asyncio socket adapter (FakeSocket, tx pipe unbounded / 1024 bytes) and on 576 "
              "blocking configurations; default delivery on one in 8 of the 155x155 script pairs (shifted diagonals); uniform fragmentations "
-             "{1,2,3,5,7,64,1000} on 6 script pairs",
+             "{1,2,3,5,7,64,1000} on 6 script pairs; 120 back-pressure duplex configurations per version/role",
     "thorough": "deviation bound 3 on the 128 deep explorations; bound 2 on the mid pairs, the socket-adapter configurations and the blocking "
                 "configurations; bound 1 on a 930-pair band of the script matrix; default delivery on EVERY one of the 155x155 script pairs in all four "
-                "version/role configurations; uniform fragmentations on 12 script pairs",
+                "version/role configurations; uniform fragmentations on 12 script pairs; 120 back-pressure duplex configurations per version/role",
 }
 
 
@@ -468,6 +471,9 @@ def jobs(tier: str) -> list[dict]:
     nb = 16 if tier == "quick" else 48
     for part in range(nb):
         out.append({"kind": "blocking", "tier": tier, "part": part, "parts": nb, "bound": 1 if tier == "quick" else 2, "npairs": len(bpairs)})
+    # (F) full duplex under back-pressure: the library's writer(s) blocked in the leaf's send_all() until its reader drained the peer
+    from . import c08_duplex
+    out.extend(c08_duplex.jobs(tier))
     return out
 
 
@@ -544,6 +550,9 @@ MAX_RUNS = 60000
 
 
 def run_job(job: dict) -> JobResult:
+    if job.get("kind") == "duplex":
+        from . import c08_duplex
+        return c08_duplex.run_job(job)
     res = JobResult()
     guarded: set = set()
     for cfg, bound in job_cfgs(job):
@@ -612,6 +621,9 @@ def explore_cfg(cfg: dict, bound: int, res: JobResult) -> None:
 
 def replay(doc: dict) -> tuple[bool, str]:
     rp = doc["replay"]
+    if rp.get("kind") == "duplex":
+        from . import c08_duplex
+        return c08_duplex.replay(doc)
     cfg = rp["cfg"]
     ctx = Ctx(rp["choices"])
     obs = run_cfg(ctx, cfg)
